@@ -1,7 +1,700 @@
-// correspondence + search binary for property C12 (stub)
+// C12 — earth mover's distances: the real Sinkhorn / Equity::variation / Heuristic / Metric code
+// (hook H9 for the plan and the potentials) against
+//  (a) the Lean model `RP.Transport` instantiated with Float32 (correspondence lines), and
+//  (b) a search oracle written from the property text: plan >= 0, total mass 1, column sums = nu,
+//      cost inside [OT - misplaced, OT + misplaced + T*min(H(mu),H(nu))] with OT from an exact
+//      min-cost-flow solver in f64 (self-certified by its dual, cross-checked on 1-D instances
+//      against the CDF formula), self-distance inside the allowance, equity distance = exact
+//      1-D W1 * 100/101, symmetric, zero iff equal, triangle; greedy plan feasible and >= OT.
+use robopoker::cards::street::Street;
+use robopoker::clustering::abstraction::Abstraction;
+use robopoker::clustering::equity::Equity;
+use robopoker::clustering::heuristic::Heuristic;
+use robopoker::clustering::histogram::Histogram;
+use robopoker::clustering::metric::Metric;
+use robopoker::clustering::pair::Pair;
+use robopoker::clustering::sinkhorn::Sinkhorn;
+use robopoker::transport::coupling::Coupling;
+use robopoker::transport::measure::Measure;
+use rpharness::*;
+use std::collections::BTreeMap;
+use std::fmt::Write as _;
+use std::panic::AssertUnwindSafe;
+
+const T: f64 = robopoker::verif::SINKHORN_TEMPERATURE as f64;
+
+fn code(a: &Abstraction) -> u128 {
+    let v: u128 = match a {
+        Abstraction::Percent(_) => 0,
+        Abstraction::Learned(_) => 1,
+        Abstraction::Preflop(_) => 2,
+    };
+    (v << 64) | u64::from(*a) as u128
+}
+fn fl(x: f32) -> String {
+    if x.is_nan() { "~NaN".into() } else { format!("~{:e}", x) }
+}
+fn hist_str(h: &Histogram) -> String {
+    let cs = h.verif_counts();
+    let mut s = format!("{} {}", cs.len(), h.verif_mass());
+    for (a, c) in cs.iter() {
+        let _ = write!(s, " {} {}", code(a), c);
+    }
+    s
+}
+fn metric_str(m: &Metric) -> String {
+    let es = m.verif_entries();
+    let mut s = format!("{}", es.len());
+    for (p, d) in es.iter() {
+        let _ = write!(s, " {} {}", i64::from(*p) as u64, d.to_bits());
+    }
+    s
+}
+fn dens(h: &Histogram) -> Vec<(Abstraction, f64)> {
+    let m = h.verif_mass() as f64;
+    h.verif_counts().into_iter().map(|(a, c)| (a, c as f64 / m)).collect()
+}
+fn entropy(p: &[f64]) -> f64 {
+    -p.iter().filter(|&&x| x > 0.0).map(|&x| x * x.ln()).sum::<f64>()
+}
+
+/// exact transportation problem by successive shortest paths (dense Dijkstra with potentials).
+/// integer supplies a (sum = sum b), costs c[i][j] >= 0. returns (primal, dual) in units of
+/// cost * supply. primal is the cost of a feasible integral flow, dual the value of a feasible
+/// dual solution: dual <= OT <= primal, so a small gap certifies both.
+fn exact_ot(a: &[i64], b: &[i64], c: &Vec<Vec<f64>>) -> (f64, f64) {
+    let (n, m) = (a.len(), b.len());
+    let v = n + m;
+    let mut ra = a.to_vec();
+    let mut rb = b.to_vec();
+    let mut flow = vec![vec![0i64; m]; n];
+    let mut pi = vec![0f64; v];
+    loop {
+        if ra.iter().all(|&x| x == 0) {
+            break;
+        }
+        let mut dist = vec![f64::INFINITY; v];
+        let mut prev = vec![usize::MAX; v];
+        let mut done = vec![false; v];
+        for i in 0..n {
+            if ra[i] > 0 {
+                dist[i] = 0.0;
+            }
+        }
+        for _ in 0..v {
+            let mut u = usize::MAX;
+            let mut best = f64::INFINITY;
+            for w in 0..v {
+                if !done[w] && dist[w] < best {
+                    best = dist[w];
+                    u = w;
+                }
+            }
+            if u == usize::MAX {
+                break;
+            }
+            done[u] = true;
+            if u < n {
+                for j in 0..m {
+                    let w = n + j;
+                    if !done[w] {
+                        let rc = (c[u][j] + pi[u] - pi[w]).max(0.0);
+                        if dist[u] + rc < dist[w] {
+                            dist[w] = dist[u] + rc;
+                            prev[w] = u;
+                        }
+                    }
+                }
+            } else {
+                let j = u - n;
+                for i in 0..n {
+                    if flow[i][j] > 0 && !done[i] {
+                        let rc = (-c[i][j] + pi[u] - pi[i]).max(0.0);
+                        if dist[u] + rc < dist[i] {
+                            dist[i] = dist[u] + rc;
+                            prev[i] = u;
+                        }
+                    }
+                }
+            }
+        }
+        let mut t = usize::MAX;
+        let mut best = f64::INFINITY;
+        for j in 0..m {
+            if rb[j] > 0 && dist[n + j] < best {
+                best = dist[n + j];
+                t = n + j;
+            }
+        }
+        assert!(t != usize::MAX, "exact_ot: no augmenting path (supplies do not balance)");
+        let dmax = dist.iter().cloned().filter(|d| d.is_finite()).fold(0.0, f64::max);
+        for w in 0..v {
+            pi[w] += if dist[w].is_finite() { dist[w] } else { dmax };
+        }
+        // bottleneck
+        let mut cap = rb[t - n];
+        let mut w = t;
+        while prev[w] != usize::MAX {
+            let u = prev[w];
+            if u >= n {
+                cap = cap.min(flow[w][u - n]); // backward edge sink u -> source w
+            }
+            w = u;
+        }
+        cap = cap.min(ra[w]);
+        let src = w;
+        let mut w = t;
+        while prev[w] != usize::MAX {
+            let u = prev[w];
+            if u < n {
+                flow[u][w - n] += cap;
+            } else {
+                flow[w][u - n] -= cap;
+            }
+            w = u;
+        }
+        ra[src] -= cap;
+        rb[t - n] -= cap;
+    }
+    assert!(rb.iter().all(|&x| x == 0));
+    let mut primal = 0.0;
+    for i in 0..n {
+        let mut row = 0;
+        for j in 0..m {
+            assert!(flow[i][j] >= 0);
+            row += flow[i][j];
+            primal += flow[i][j] as f64 * c[i][j];
+        }
+        assert!(row == a[i]);
+    }
+    for j in 0..m {
+        assert!((0..n).map(|i| flow[i][j]).sum::<i64>() == b[j]);
+    }
+    // dual: alpha_i = -pi_i, beta_j = min_i (c_ij - alpha_i)  (feasible by construction)
+    let alpha: Vec<f64> = (0..n).map(|i| -pi[i]).collect();
+    let mut dual = 0.0;
+    for i in 0..n {
+        dual += a[i] as f64 * alpha[i];
+    }
+    for j in 0..m {
+        let beta = (0..n).map(|i| c[i][j] - alpha[i]).fold(f64::INFINITY, f64::min);
+        dual += b[j] as f64 * beta;
+    }
+    (primal, dual)
+}
+
+/// OT between two histograms under ground cost `d`, as a probability-normalised cost; (primal, dual)
+fn ot_hist(mu: &Histogram, nu: &Histogram, d: &dyn Fn(&Abstraction, &Abstraction) -> f64) -> (f64, f64) {
+    let cm = mu.verif_counts();
+    let cn = nu.verif_counts();
+    let (mm, mn) = (mu.verif_mass() as i64, nu.verif_mass() as i64);
+    let a: Vec<i64> = cm.iter().map(|(_, c)| *c as i64 * mn).collect();
+    let b: Vec<i64> = cn.iter().map(|(_, c)| *c as i64 * mm).collect();
+    let c: Vec<Vec<f64>> = cm.iter().map(|(x, _)| cn.iter().map(|(y, _)| d(x, y)).collect()).collect();
+    let (p, q) = exact_ot(&a, &b, &c);
+    let s = (mm * mn) as f64;
+    (p / s, q / s)
+}
+
+fn gen_counts(rng: &mut Rng, n: usize) -> (Vec<usize>, &'static str) {
+    match rng.below(5) {
+        0 => (vec![1 + rng.below(4) as usize; n], "uniform"),
+        1 => {
+            let r = 0.5 + 0.45 * rng.unit();
+            ((0..n).map(|i| ((2000.0 * r.powi(i as i32)) as usize).max(1)).collect(), "geometric")
+        }
+        2 => {
+            let mut v = vec![1usize; n];
+            let k = rng.below(n as u64) as usize;
+            v[k] = 500 + rng.below(5000) as usize;
+            (v, "dominant")
+        }
+        3 => ((0..n).map(|_| 1 + rng.below(60) as usize).collect(), "random"),
+        _ => ((0..n).map(|_| if rng.chance(1, 4) { 100 + rng.below(400) as usize } else { 1 + rng.below(3) as usize }).collect(), "bimodal"),
+    }
+}
+fn pick(rng: &mut Rng, universe: &[Abstraction], n: usize) -> Vec<Abstraction> {
+    let mut pool = universe.to_vec();
+    let mut out = vec![];
+    for _ in 0..n.min(pool.len()) {
+        let i = rng.below(pool.len() as u64) as usize;
+        out.push(pool.swap_remove(i));
+    }
+    out
+}
+fn build_hist(support: &[Abstraction], counts: &[usize]) -> Histogram {
+    let mut v = vec![];
+    for (a, c) in support.iter().zip(counts.iter()) {
+        for _ in 0..*c {
+            v.push(*a);
+        }
+    }
+    Histogram::from(v)
+}
+fn gen_hist(rng: &mut Rng, universe: &[Abstraction], n: usize) -> (Histogram, &'static str) {
+    let sup = pick(rng, universe, n);
+    let (cs, kind) = gen_counts(rng, sup.len());
+    (build_hist(&sup, &cs), kind)
+}
+
+/// raw pair distances over a universe of learned abstractions
+fn gen_metric(rng: &mut Rng, universe: &[Abstraction]) -> (BTreeMap<Pair, f32>, &'static str, usize) {
+    let u = universe.len();
+    let kind = rng.below(6);
+    let pts: Vec<(f64, f64)> = (0..u).map(|_| (rng.unit(), rng.unit())).collect();
+    let cl: Vec<u64> = (0..u).map(|_| rng.below(3)).collect();
+    let special = (rng.below(u as u64) as usize, rng.below(u as u64) as usize);
+    let mut map = BTreeMap::new();
+    let mut pairs = 0;
+    for i in 0..u {
+        for j in 0..i {
+            let d: f64 = match kind {
+                0 => ((pts[i].0 - pts[j].0).powi(2) + (pts[i].1 - pts[j].1).powi(2)).sqrt(),
+                1 => (pts[i].0 - pts[j].0).abs(),
+                2 => rng.unit(),
+                3 => if cl[i] == cl[j] { 1e-6 * (1.0 + rng.unit()) } else { 0.9 + 0.1 * rng.unit() },
+                4 => 1.0,
+                _ => if (i, j) == special || (j, i) == special { 1.0 } else { 1e-5 * (1.0 + rng.unit()) },
+            };
+            pairs += 1;
+            map.insert(Pair::from((&universe[i], &universe[j])), d as f32 * 3.7);
+        }
+    }
+    let name = ["euclid2d", "line", "random-symmetric", "clustered-degenerate", "discrete", "one-far-pair"][kind as usize];
+    (map, name, pairs)
+}
+
+struct SkOut {
+    lhs: Vec<f32>,
+    rhs: Vec<f32>,
+    cost: f32,
+    plan: Vec<Vec<f32>>,
+}
+fn run_sinkhorn(mu: &Histogram, nu: &Histogram, metric: &Metric) -> Option<SkOut> {
+    catch(AssertUnwindSafe(|| {
+        let sk = Sinkhorn::from((mu, nu, metric)).minimize();
+        let l = sk.verif_lhs();
+        let r = sk.verif_rhs();
+        let plan = l.iter().map(|(x, _)| r.iter().map(|(y, _)| sk.verif_coupling(x, y)).collect()).collect();
+        let cost = sk.cost();
+        SkOut { lhs: l.iter().map(|e| e.1).collect(), rhs: r.iter().map(|e| e.1).collect(), cost, plan }
+    }))
+}
+
+fn sk_case(run: &mut Run, tag: &str, mu: &Histogram, nu: &Histogram, metric: &Metric, do_ot: bool) {
+    run.evaluations += 1;
+    let op = format!("sk {} {} {}", hist_str(mu), hist_str(nu), metric_str(metric));
+    let (n, m) = (mu.n(), nu.n());
+    let short = format!("sinkhorn[{tag}] mu={} nu={}", hist_str(mu), hist_str(nu));
+    let out = match run_sinkhorn(mu, nu, metric) {
+        None => {
+            run.line(&op, "panic");
+            run.fail("sinkhorn-panics", &short, "a plan", "panic");
+            return;
+        }
+        Some(o) => o,
+    };
+    // column sums in f32, in the order the model adds them
+    let cols32: Vec<f32> = (0..m).map(|j| out.plan.iter().map(|r| r[j]).sum::<f32>()).collect();
+    let mut ans = String::from("ok L");
+    for v in &out.lhs { ans.push(' '); ans.push_str(&fl(*v)); }
+    ans.push_str(" R");
+    for v in &out.rhs { ans.push(' '); ans.push_str(&fl(*v)); }
+    let _ = write!(ans, " C {} S", fl(out.cost));
+    for v in &cols32 { ans.push(' '); ans.push_str(&fl(*v)); }
+    if n * m <= 256 {
+        ans.push_str(" P");
+        for r in &out.plan { for v in r { ans.push(' '); ans.push_str(&fl(*v)); } }
+    }
+    run.line(&op, &ans);
+    run.count(&format!("sk:{}", tag.split('/').next().unwrap()));
+    run.count(&format!("sk-support={}", match n.max(m) { 1 => "1", 2..=5 => "2-5", 6..=20 => "6-20", 21..=50 => "21-50", _ => "51-100" }));
+    if n > 1 || m > 1 {
+        run.distinct(&op);
+    }
+    // ---- search oracle
+    run.spec_checked += 1;
+    let dm = dens(mu);
+    let dn = dens(nu);
+    let mut total = 0f64;
+    let mut neg = false;
+    for r in &out.plan { for &v in r { if !(v >= 0.0) || !v.is_finite() { neg = true; } total += v as f64; } }
+    if neg {
+        run.fail("sinkhorn-plan-negative-or-nonfinite", &short, "P(x,y) >= 0 finite", "an entry is negative/NaN/inf");
+    }
+    if (total - 1.0).abs() > 2e-4 {
+        run.fail("sinkhorn-total-mass", &short, "total mass 1", &format!("{total}"));
+    }
+    for j in 0..m {
+        let cs: f64 = out.plan.iter().map(|r| r[j] as f64).sum();
+        if (cs - dn[j].1).abs() > 2e-4 * dn[j].1 + 1e-7 {
+            run.fail("sinkhorn-column-sum", &short, &format!("column {j} sums to nu = {}", dn[j].1), &format!("{cs}"));
+        }
+    }
+    let rows: Vec<f64> = out.plan.iter().map(|r| r.iter().map(|&v| v as f64).sum()).collect();
+    let mis: f64 = 0.5 * rows.iter().zip(dm.iter()).map(|(r, (_, p))| (r - p).abs()).sum::<f64>();
+    let hmu = entropy(&dm.iter().map(|e| e.1).collect::<Vec<_>>());
+    let hnu = entropy(&dn.iter().map(|e| e.1).collect::<Vec<_>>());
+    let hrows = entropy(&rows);
+    let allow = T * hmu.min(hnu);
+    run.count(&format!("sk-misplaced={}", if mis < 1e-4 { "<1e-4" } else if mis < 1e-3 { "<1e-3" } else if mis < 1e-2 { "<1e-2" } else { ">=1e-2" }));
+    // cost recomputed in f64 from the plan must agree with cost()
+    let mut c64 = 0f64;
+    for (i, (x, _)) in dm.iter().enumerate() { for (j, (y, _)) in dn.iter().enumerate() { c64 += out.plan[i][j] as f64 * metric.distance(x, y) as f64; } }
+    if (c64 - out.cost as f64).abs() > 1e-4 {
+        run.fail("sinkhorn-cost-not-plan-cost", &short, &format!("sum P*d = {c64}"), &format!("{}", out.cost));
+    }
+    if do_ot {
+        let (p, q) = ot_hist(mu, nu, &|x, y| metric.distance(x, y) as f64);
+        if p - q > 1e-7 {
+            run.fail("oracle-self-check", &short, "primal = dual", &format!("primal {p} dual {q}"));
+        }
+        run.spec_checked += 1;
+        let tol = 1e-4;
+        let c = out.cost as f64;
+        if c < q - mis - tol {
+            run.fail("sinkhorn-cost-below-band", &short, &format!(">= OT - misplaced = {} - {}", q, mis), &format!("{c}"));
+        }
+        if c > p + mis + allow + tol {
+            let alt = T * hrows.min(hnu);
+            let class = if c > p + mis + alt + tol { "sinkhorn-cost-above-band" } else { "sinkhorn-cost-above-band-with-input-entropy-only" };
+            run.fail(class, &short, &format!("<= OT + misplaced + T*min(H) = {} + {} + {}", p, mis, allow), &format!("{c}"));
+        }
+        run.count("sk-with-exact-ot");
+    }
+}
+
 fn main() {
-    let a = rpharness::args();
-    let mut run = rpharness::Run::new(&a.out);
-    run.rule = "stub".into();
+    let a = args();
+    let mut rng = Rng::new(a.seed);
+    let mut run = Run::new(&a.out);
+    quiet_panics();
+    let deep = a.thorough();
+
+    // ---- std facts the model relies on: min_by returns the first minimum
+    {
+        let v = [(0usize, 1.0f32), (1, 0.5), (2, 0.5), (3, 0.7)];
+        let r = v.iter().min_by(|a, b| a.1.partial_cmp(&b.1).unwrap()).unwrap();
+        run.spec_checked += 1;
+        if r.0 != 1 {
+            run.fail("std-min_by-not-first", "[1.0,0.5,0.5,0.7]", "index 1", &format!("{}", r.0));
+        }
+    }
+
+    // ---- abstraction layout, exhaustively over index 0..4096 and the four streets
+    for (s, street) in [Street::Pref, Street::Flop, Street::Turn, Street::Rive].iter().enumerate() {
+        for i in 0..4096usize {
+            let ab = Abstraction::from((*street, i));
+            run.evaluations += 1;
+            run.line(&format!("abs {s} {i}"), &format!("{}", code(&ab)));
+            run.spec_checked += 1;
+            if ab.street() != *street || ab.index() != i {
+                run.fail("abstraction-layout", &format!("({s},{i})"), "street/index round trip", &format!("{:?} {}", ab.street(), ab.index()));
+            }
+        }
+    }
+    run.count_n("abs-exhaustive", 4 * 4096);
+
+    let flop: Vec<Abstraction> = (0..256).map(|i| Abstraction::from((Street::Flop, i))).collect();
+    let turn: Vec<Abstraction> = (0..256).map(|i| Abstraction::from((Street::Turn, i))).collect();
+    let river: Vec<Abstraction> = (0..=100).map(|i| Abstraction::from((Street::Rive, i))).collect();
+
+    // ---- Histogram::from(Vec) ordering / counts
+    for _ in 0..(if deep { 2000 } else { 300 }) {
+        let uni = [&flop, &turn, &river][rng.below(3) as usize];
+        let n = 1 + rng.below(60) as usize;
+        let v: Vec<Abstraction> = (0..n).map(|_| uni[rng.below(uni.len().min(12 + n) as u64) as usize]).collect();
+        let h = Histogram::from(v.clone());
+        let op = format!("hist {} {}", n, v.iter().map(|a| code(a).to_string()).collect::<Vec<_>>().join(" "));
+        let cs = h.verif_counts();
+        let ans = format!("{} {}{}", h.verif_mass(), cs.len(), cs.iter().map(|(a, c)| format!(" {} {}", code(a), c)).collect::<String>());
+        run.evaluations += 1;
+        run.line(&op, &ans);
+        run.spec_checked += 1;
+        let mut want: BTreeMap<Abstraction, usize> = BTreeMap::new();
+        for x in &v { *want.entry(*x).or_default() += 1; }
+        if h.verif_mass() != n || cs != want.into_iter().collect::<Vec<_>>() {
+            run.fail("histogram-from-vec", &op, "multiset counts", &ans);
+        }
+        run.distinct(&op);
+    }
+    run.count("hist");
+
+    // ---- equity distance between river buckets
+    for _ in 0..200 {
+        let (i, j) = (rng.below(101) as usize, rng.below(101) as usize);
+        let d = Equity.distance(&river[i], &river[j]);
+        run.evaluations += 1;
+        run.line(&format!("edist {} {}", code(&river[i]), code(&river[j])), &fl(d));
+        run.spec_checked += 1;
+        let want = (i as f64 - j as f64).abs() / 100.0;
+        if (d as f64 - want).abs() > 1e-6 {
+            run.fail("equity-ground-distance", &format!("{i} {j}"), &format!("{want}"), &format!("{d}"));
+        }
+    }
+
+    // ---- Sinkhorn on learned abstractions with generated metrics
+    let n_metrics = if deep { 120 } else { 24 };
+    let per_metric = if deep { 14 } else { 7 };
+    let mut big_left = if deep { 40 } else { 4 };
+    for mi in 0..n_metrics {
+        let usize_ = match mi % 4 { 0 => 4 + rng.below(8) as usize, 1 => 12 + rng.below(20) as usize, 2 => 30 + rng.below(40) as usize, _ => 100 + rng.below(60) as usize };
+        let base = if rng.chance(1, 2) { &flop } else { &turn };
+        let universe = pick(&mut rng, base, usize_);
+        let (raw, mkind, pairs) = gen_metric(&mut rng, &universe);
+        if raw.len() != pairs {
+            run.notes.push(format!("pair-key collision inside a generated universe of {} abstractions ({} keys for {} pairs)", usize_, raw.len(), pairs));
+        }
+        // Metric::from normalisation
+        {
+            let entries: Vec<(Pair, f32)> = raw.iter().map(|(p, d)| (*p, *d)).collect();
+            let m = Metric::from(raw.clone());
+            let mut op = format!("mnorm {}", entries.len());
+            for (p, d) in &entries { let _ = write!(op, " {} {}", i64::from(*p) as u64, d.to_bits()); }
+            let es = m.verif_entries();
+            let mut ans = format!("{}", es.len());
+            for (p, d) in &es { let _ = write!(ans, " {} {}", i64::from(*p) as u64, fl(*d)); }
+            run.evaluations += 1;
+            run.line(&op, &ans);
+            run.spec_checked += 1;
+            let mx = es.iter().map(|e| e.1).fold(0f32, f32::max);
+            if es.iter().any(|e| !(e.1 >= 0.0 && e.1 <= 1.0)) || (mx - 1.0).abs() > 1e-6 {
+                run.fail("metric-not-normalised", &format!("metric {mkind} over {usize_}"), "values in [0,1], max 1", &format!("max {mx}"));
+            }
+            run.distinct(&op);
+        }
+        let metric = Metric::from(raw);
+        for ci in 0..per_metric {
+            let cap = universe.len().min(100);
+            let (n, m) = match ci % 7 {
+                0 => (1, 1 + rng.below(cap as u64) as usize),
+                1 => (1 + rng.below(cap as u64) as usize, 1),
+                2 => (1 + rng.below(cap.min(6) as u64) as usize, 1 + rng.below(cap.min(6) as u64) as usize),
+                3 | 4 => (1 + rng.below(cap.min(25) as u64) as usize, 1 + rng.below(cap.min(25) as u64) as usize),
+                5 => (1 + rng.below(cap as u64) as usize, 1 + rng.below(cap as u64) as usize),
+                _ => (cap, cap),
+            };
+            if n * m > 2500 {
+                if big_left == 0 { continue; }
+                big_left -= 1;
+            }
+            let (mu, k1) = gen_hist(&mut rng, &universe, n);
+            let (nu, k2) = gen_hist(&mut rng, &universe, m);
+            let tag = format!("{mkind}/{k1}-{k2}");
+            sk_case(&mut run, &tag, &mu, &nu, &metric, true);
+            if ci % 3 == 0 {
+                // self distance: within misplaced + T*H of zero
+                let out = run_sinkhorn(&mu, &mu, &metric);
+                sk_case(&mut run, &format!("{mkind}/self-{k1}"), &mu, &mu, &metric, false);
+                run.spec_checked += 1;
+                if let Some(o) = out {
+                    let dm = dens(&mu);
+                    let rows: Vec<f64> = o.plan.iter().map(|r| r.iter().map(|&v| v as f64).sum()).collect();
+                    let mis: f64 = 0.5 * rows.iter().zip(dm.iter()).map(|(r, (_, p))| (r - p).abs()).sum::<f64>();
+                    let allow = T * entropy(&dm.iter().map(|e| e.1).collect::<Vec<_>>());
+                    if o.cost as f64 > mis + allow + 1e-4 || (o.cost as f64) < -1e-6 {
+                        run.fail("sinkhorn-self-distance", &format!("self[{tag}] {}", hist_str(&mu)), &format!("within misplaced + T*H = {} + {}", mis, allow), &format!("{}", o.cost));
+                    }
+                }
+            }
+        }
+        // ---- greedy plan on the same metric
+        for gi in 0..(if deep { 8 } else { 4 }) {
+            let cap = universe.len().min(100);
+            let n = 1 + rng.below(cap.min(30) as u64) as usize;
+            let m = 1 + rng.below(cap.min(30) as u64) as usize;
+            let disjoint = gi % 2 == 0 && n + m <= universe.len();
+            let (src, tgt) = if disjoint {
+                let both = pick(&mut rng, &universe, n + m);
+                let (c1, _) = gen_counts(&mut rng, n);
+                let (c2, _) = gen_counts(&mut rng, m);
+                (build_hist(&both[..n], &c1), build_hist(&both[n..], &c2))
+            } else {
+                (gen_hist(&mut rng, &universe, n).0, gen_hist(&mut rng, &universe, m).0)
+            };
+            greedy_case(&mut run, mkind, &src, &tgt, &metric, disjoint);
+        }
+    }
+
+    // ---- Sinkhorn directly on river abstractions (ground distance |i-j|/100)
+    for _ in 0..(if deep { 40 } else { 8 }) {
+        let n = 1 + rng.below(30) as usize;
+        let m = 1 + rng.below(30) as usize;
+        let (mu, k1) = gen_hist(&mut rng, &river, n);
+        let (nu, k2) = gen_hist(&mut rng, &river, m);
+        sk_case(&mut run, &format!("river-1d/{k1}-{k2}"), &mu, &nu, &Metric::default(), true);
+    }
+
+    // ---- Equity::variation
+    let n_eq = if deep { 4000 } else { 600 };
+    let mut pool: Vec<Histogram> = vec![];
+    for i in 0..n_eq {
+        let n = match i % 5 { 0 => 1, 1 => 1 + rng.below(5) as usize, 2 => 100 + rng.below(2) as usize, _ => 1 + rng.below(100) as usize };
+        let (h, _) = if i % 11 == 3 {
+            // contiguous block of buckets (typical equity histogram)
+            let lo = rng.below(101 - n.min(100) as u64 + 1) as usize;
+            let sup: Vec<Abstraction> = (lo..(lo + n).min(101)).map(|k| river[k]).collect();
+            let (cs, k) = gen_counts(&mut rng, sup.len());
+            (build_hist(&sup, &cs), k)
+        } else {
+            gen_hist(&mut rng, &river, n)
+        };
+        pool.push(h);
+    }
+    let pdf = |h: &Histogram| -> Vec<f64> {
+        let m = h.verif_mass() as f64;
+        let mut v = vec![0f64; 101];
+        for (a, c) in h.verif_counts() { v[a.index()] += c as f64 / m; }
+        v
+    };
+    let w1 = |x: &Histogram, y: &Histogram| -> f64 {
+        let (p, q) = (pdf(x), pdf(y));
+        let (mut fx, mut fy, mut s) = (0f64, 0f64, 0f64);
+        for i in 0..100 { fx += p[i]; fy += q[i]; s += (fx - fy).abs(); }
+        s / 100.0
+    };
+    let same_dist = |x: &Histogram, y: &Histogram| -> bool {
+        // equal as exact rationals
+        let (cx, cy) = (x.verif_counts(), y.verif_counts());
+        let (mx, my) = (x.verif_mass() as u128, y.verif_mass() as u128);
+        cx.len() == cy.len() && cx.iter().zip(cy.iter()).all(|((a, c), (b, d))| a == b && *c as u128 * my == *d as u128 * mx)
+    };
+    for i in 0..pool.len() {
+        let x = &pool[i];
+        let y = &pool[(i * 7 + 3) % pool.len()];
+        let z = &pool[(i * 13 + 5) % pool.len()];
+        let v = Equity::variation(x, y);
+        run.evaluations += 1;
+        let op = format!("var {} {}", hist_str(x), hist_str(y));
+        run.line(&op, &fl(v));
+        run.distinct(&op);
+        run.count(&format!("var-support={}", match x.n() { 1 => "1", 2..=5 => "2-5", 6..=50 => "6-50", _ => "51-101" }));
+        run.spec_checked += 1;
+        let want = w1(x, y) * 100.0 / 101.0;
+        if (v as f64 - want).abs() > 2e-6 + 1e-5 * want {
+            run.fail("equity-distance-not-w1", &op, &format!("W1*100/101 = {want}"), &format!("{v}"));
+        }
+        let vyx = Equity::variation(y, x);
+        if v.to_bits() != vyx.to_bits() {
+            run.fail("equity-distance-asymmetric", &op, &format!("{v}"), &format!("{vyx}"));
+        }
+        let vxx = Equity::variation(x, x);
+        if vxx != 0.0 {
+            run.fail("equity-self-distance-nonzero", &hist_str(x), "0", &format!("{vxx}"));
+        }
+        if (v == 0.0) != same_dist(x, y) {
+            run.fail("equity-zero-iff-equal", &op, &format!("zero iff equal (equal = {})", same_dist(x, y)), &format!("{v}"));
+        }
+        let (vyz, vxz) = (Equity::variation(y, z), Equity::variation(x, z));
+        if vxz as f64 > v as f64 + vyz as f64 + 1e-6 {
+            run.fail("equity-triangle", &format!("{op} / z={}", hist_str(z)), &format!("d(x,z) <= {} + {}", v, vyz), &format!("{vxz}"));
+        }
+        // the same distribution with scaled counts is at distance zero
+        if i % 9 == 0 {
+            let k = 2 + rng.below(3) as usize;
+            let sup: Vec<Abstraction> = x.verif_counts().iter().map(|e| e.0).collect();
+            let cs: Vec<usize> = x.verif_counts().iter().map(|e| e.1 * k).collect();
+            let x2 = build_hist(&sup, &cs);
+            let v2 = Equity::variation(x, &x2);
+            run.evaluations += 1;
+            run.line(&format!("var {} {}", hist_str(x), hist_str(&x2)), &fl(v2));
+            run.spec_checked += 1;
+            if v2 != 0.0 {
+                run.fail("equity-zero-iff-equal", &format!("{} vs counts x{k}", hist_str(x)), "0", &format!("{v2}"));
+            }
+        }
+        // exact solver on the 1-D ground distance: cross-check of the solver and of W1
+        if i % (if deep { 10 } else { 25 }) == 0 {
+            let (p, q) = ot_hist(x, y, &|a, b| (a.index() as f64 - b.index() as f64).abs() / 100.0);
+            run.spec_checked += 1;
+            let w = w1(x, y);
+            if (p - w).abs() > 1e-9 || (q - w).abs() > 1e-9 {
+                run.fail("oracle-self-check", &op, &format!("CDF formula {w}"), &format!("solver primal {p} dual {q}"));
+            }
+            run.count("ot-solver-crosscheck-1d");
+        }
+    }
+
+    run.rule = format!(
+        "{} generated metrics (Euclidean 2-D, line, random symmetric, clustered nearly-degenerate, discrete, one-far-pair) over 4..160 learned abstractions, each with {} Sinkhorn instances (support sizes 1..100; uniform/geometric/dominant/random/bimodal masses; every third also as a self-distance) and greedy instances (half with disjoint supports); Sinkhorn on river buckets; {} equity histogram triples (supports 1..101); exhaustive abstraction layout 4x4096; Histogram::from ordering. Exact OT (f64 min-cost flow, dual-certified) on every Sinkhorn/greedy instance. distinct = distinct op lines with support > 1",
+        n_metrics, per_metric, n_eq);
     run.finish();
+}
+
+fn greedy_case(run: &mut Run, mkind: &str, src: &Histogram, tgt: &Histogram, metric: &Metric, disjoint: bool) {
+    run.evaluations += 1;
+    let op = format!("greedy {} {} {}", hist_str(src), hist_str(tgt), metric_str(metric));
+    let short = format!("greedy[{mkind}] src={} tgt={}", hist_str(src), hist_str(tgt));
+    let xs: Vec<Abstraction> = src.verif_counts().iter().map(|e| e.0).collect();
+    let ys: Vec<Abstraction> = tgt.verif_counts().iter().map(|e| e.0).collect();
+    let res = catch(AssertUnwindSafe(|| {
+        let h = Heuristic::from((src, tgt, metric)).minimize();
+        let cost = h.cost();
+        let mut plan: BTreeMap<u64, f32> = BTreeMap::new();
+        let mut flows = vec![vec![None; ys.len()]; xs.len()];
+        for (i, x) in xs.iter().enumerate() {
+            for (j, y) in ys.iter().enumerate() {
+                if let Some(f) = catch(AssertUnwindSafe(|| h.flow(x, y))) {
+                    plan.insert(i64::from(Pair::from((x, y))) as u64, f);
+                    flows[i][j] = Some(f);
+                }
+            }
+        }
+        (cost, plan, flows)
+    }));
+    let (cost, plan, flows) = match res {
+        None => {
+            run.line(&op, "panic");
+            run.fail("greedy-panics", &short, "a plan", "panic");
+            return;
+        }
+        Some(r) => r,
+    };
+    let mut ans = format!("ok C {} K {}", fl(cost), plan.len());
+    for (k, v) in &plan { let _ = write!(ans, " {} {}", k, fl(*v)); }
+    run.line(&op, &ans);
+    run.distinct(&op);
+    run.count(&format!("greedy:{mkind}{}", if disjoint { "/disjoint" } else { "" }));
+    // ---- oracle
+    run.spec_checked += 1;
+    let (p, q) = ot_hist(src, tgt, &|x, y| metric.distance(x, y) as f64);
+    if p - q > 1e-7 {
+        run.fail("oracle-self-check", &short, "primal = dual", &format!("primal {p} dual {q}"));
+    }
+    if (cost as f64) < q - 1e-5 {
+        run.fail("greedy-cost-below-optimum", &short, &format!(">= OT = {q}"), &format!("{cost}"));
+    }
+    if !(cost >= 0.0) || cost as f64 > 1.0 + 1e-5 {
+        run.fail("greedy-cost-out-of-range", &short, "0 <= cost <= max distance", &format!("{cost}"));
+    }
+    let ds = dens(src);
+    let dt = dens(tgt);
+    // masses recovered from flow / distance where the distance is positive
+    let mut rows = vec![0f64; xs.len()];
+    let mut cols = vec![0f64; ys.len()];
+    let mut recoverable = true;
+    for i in 0..xs.len() {
+        for j in 0..ys.len() {
+            let d = metric.distance(&xs[i], &ys[j]) as f64;
+            if let Some(f) = flows[i][j] {
+                if !(f >= 0.0) { run.fail("greedy-flow-negative", &short, ">= 0", &format!("{f}")); }
+                if d > 0.0 { rows[i] += f as f64 / d; cols[j] += f as f64 / d; } else if xs[i] != ys[j] { recoverable = false; }
+            }
+        }
+    }
+    if disjoint && recoverable && metric.verif_entries().iter().all(|e| e.1 > 1e-3) {
+        // every move crosses a positive distance and keys are per ordered pair: the plan is observable
+        run.spec_checked += 1;
+        for i in 0..xs.len() {
+            if (rows[i] - ds[i].1).abs() > 1e-3 * ds[i].1 + 1e-5 {
+                run.fail("greedy-row-sum", &short, &format!("row {i} = mu = {}", ds[i].1), &format!("{}", rows[i]));
+            }
+        }
+        for j in 0..ys.len() {
+            if (cols[j] - dt[j].1).abs() > 1e-3 * dt[j].1 + 1e-5 {
+                run.fail("greedy-column-sum", &short, &format!("column {j} = nu = {}", dt[j].1), &format!("{}", cols[j]));
+            }
+        }
+        run.count("greedy-plan-observable");
+    }
 }
